@@ -272,6 +272,17 @@ pub mod fl {
         #[verifier::external_body]
         pub fn is_finite(self) -> (r: bool) ensures r == (val(self) is Fin) { self.v.is_finite() }
     }
+    /// `f32::total_cmp` / `f64::total_cmp`: the IEEE-754 totalOrder — a total order on *all* values (NaN
+    /// included) that agrees with `<` on every pair the partial order can compare.
+    pub uninterp spec fn tc_key(f: Fl) -> int;
+    pub broadcast axiom fn ax_tc_consistent(a: Fl, b: Fl) requires xr_gt(val(a), val(b)) ensures #![trigger tc_key(a), tc_key(b)] tc_key(a) > tc_key(b);
+    pub open spec fn tc_spec(a: Fl, b: Fl) -> Ordering {
+        if tc_key(a) < tc_key(b) { Ordering::Less } else if tc_key(a) > tc_key(b) { Ordering::Greater } else { Ordering::Equal }
+    }
+    impl Fl {
+        #[verifier::external_body]
+        pub fn total_cmp(&self, other: &Fl) -> (r: Ordering) ensures r == tc_spec(*self, *other) { unimplemented!() }
+    }
     /// `std::f64::consts::PI`
     #[allow(non_snake_case)]
     #[verifier::external_body]
